@@ -98,8 +98,8 @@ func c15wire(p *Prog, r *Report) {
 		if chk, isSub := subst[name]; isSub {
 			r.Check(chk(v), rule, "ReadWireInfo:EventBody."+name, p.ipos(valueInstr(v, rw)), fnName(rw), "rebuilt by the declared substitution", "EventBody."+name+" is not rebuilt by its declared substitution (store lookup / repertoire / creator attribution)")
 		} else {
-			okV := flowsFromField(v, name) && depOnParamType(v, "WireEvent")
-			r.Check(okV && wireFields[name], rule, "ReadWireInfo:EventBody."+name, p.ipos(valueInstr(v, rw)), fnName(rw), "verbatim from WireBody."+name, "EventBody."+name+" is not taken verbatim from the same-named wire field")
+			okV := verbatimFromField(rw, v, name) && depOnParamType(v, "WireEvent")
+			r.Check(okV && wireFields[name], rule, "ReadWireInfo:EventBody."+name, p.ipos(valueInstr(v, rw)), fnName(rw), "verbatim from WireBody."+name, "EventBody."+name+" is not taken verbatim from the same-named wire field (it is rebuilt or copied: a copy that does not preserve nil vs empty elements changes the JSON pre-image, hence the hash and the validity of the creator's signature)")
 			// and ToWire sends it from the same field
 			sv, okS := sent[name]
 			okT := okS && flowsFromField(sv, name)
@@ -381,4 +381,69 @@ func rootAllocOf(v ssa.Value) ssa.Value {
 		}
 	}
 	return v
+}
+
+// verbatimFromField: every value-preserving path of v ends in a load of the named field. A value
+// rebuilt with make/append (a copy) is accepted only if the function tests an ELEMENT of that
+// field for nil (a nil-preserving copy); the common idioms append([]byte(nil), x...) and
+// make+copy turn empty into nil or nil into empty and change the JSON encoding.
+func verbatimFromField(fn *ssa.Function, v ssa.Value, name string) bool {
+	allField := true
+	anyField := false
+	seen := map[ssa.Value]bool{}
+	var walk func(x ssa.Value)
+	walk = func(x ssa.Value) {
+		x = unwrap(x)
+		if seen[x] {
+			return
+		}
+		seen[x] = true
+		if fv, _ := fieldOf(x); fv != nil && fv.Name() == name {
+			anyField = true
+			return
+		}
+		switch t := x.(type) {
+		case *ssa.Phi:
+			for _, e := range t.Edges {
+				walk(e)
+			}
+			return
+		case *ssa.UnOp:
+			if al, ok := t.X.(*ssa.Alloc); ok {
+				for _, val := range capturedStores(al) {
+					walk(val)
+				}
+				return
+			}
+		}
+		allField = false
+	}
+	walk(v)
+	if anyField && allField {
+		return true
+	}
+	if !anyField {
+		return false
+	}
+	// a copy: accept only with an element-level nil test
+	for _, b := range fn.Blocks {
+		if n := len(b.Instrs); n > 0 {
+			if iff, ok := b.Instrs[n-1].(*ssa.If); ok {
+				cv, _ := stripNot(iff.Cond, true)
+				if bo, ok := cv.(*ssa.BinOp); ok && (isNilConst(bo.X) || isNilConst(bo.Y)) {
+					el := bo.X
+					if isNilConst(bo.X) {
+						el = bo.Y
+					}
+					// an element of the field: loaded through an IndexAddr on it
+					if u, ok := unwrap(el).(*ssa.UnOp); ok {
+						if ia, ok := u.X.(*ssa.IndexAddr); ok && flowsFromField(ia.X, name) {
+							return true
+						}
+					}
+				}
+			}
+		}
+	}
+	return false
 }
